@@ -35,13 +35,30 @@ class SymOid(SymText):
     def __hash__(self):
         return 0x01d
 
+    def rendered(self):
+        """dotted text with one integer token per symbolic arc"""
+        return '.'.join(E().registry_token(a) if isinstance(a, SymInt) else str(a) for a in self.arcs)
+
     def __format__(self, spec):
-        return '<symoid>'
+        if spec not in ('', 's'):
+            raise Inconclusive('format spec %r on symbolic OBJECT IDENTIFIER' % spec)
+        return self.rendered()
+
+    def __str__(self):
+        return self.rendered()
 
     def __repr__(self):
         return '<symoid %d>' % len(self.arcs)
 
-    __str__ = __repr__
+    def lstrip(self, chars=None):
+        if chars is not None and any(c in '0123456789.' for c in chars):
+            raise Inconclusive('SymOid.lstrip(%r)' % (chars,))
+        return self
+
+    rstrip = strip = lstrip
+
+    def encode(self, encoding='utf-8', errors='strict'):
+        return self.rendered().encode(encoding)
 
 
 def parse_rendered(text):
